@@ -178,7 +178,7 @@ def stepLine (w : World) (line : String) : World × String :=
       | some n =>
         match getConn n cid with
         | some c =>
-          match c.handshakeIn srcCtx (isSrv == "1") with
+          match c.handshakeIn (if srcCtx == "~" then none else some srcCtx) (isSrv == "1") with
           | .error e => (w, errStr e)
           | .ok c' => ({ w with nodes := w.nodes.set! i (modConn n cid (fun _ => c')) }, s!"peer {srcCtx}")
         | none => bad
